@@ -15,6 +15,7 @@ package props
 import (
 	"bufio"
 	"fmt"
+	"os"
 	"runtime"
 	"strconv"
 	"strings"
@@ -271,6 +272,12 @@ func c18Step(i int, st c18Stage, in c18Str, first bool) (out c18Str, throws, ear
 	case "fail":
 		throws, early = true, nin > 0
 		ok = !first
+	case "wfail":
+		// a stage whose byte output fails for a reason other than a reader that
+		// is gone (its stdout is a file opened read-only): a genuine exception,
+		// reported wherever the stage is; it reads nothing and writes nothing
+		// into the pipeline
+		throws, early = true, nin > 0
 	case "throw":
 		out = c18Str{v: c18One(c18Seq(tag+"v", st.NV, ""))}
 		throws, early = true, st.K < c18Count(in.v) || c18Count(in.b) > 0
@@ -430,6 +437,8 @@ func c18Code(c c18Case) string {
 			}
 		case "fail":
 			s = "fail boom" + id
+		case "wfail":
+			s = []string{"echo data > (c18-ro)", "print data > (c18-ro)", "{ echo a; echo b } > (c18-ro)", "to-lines [a b] > (c18-ro)"}[st.K%4]
 		case "throw":
 			s = "c18-throw " + id
 		default:
@@ -459,6 +468,7 @@ type c18Run struct {
 	c    c18Case
 	cnt  []atomic.Int64
 	once []atomic.Bool
+	ro   *os.File // /dev/null opened read-only: every write to it fails (EBADF)
 }
 
 func (r *c18Run) y(i int) {
@@ -551,6 +561,7 @@ func (r *c18Run) boom(i int) error {
 func (r *c18Run) fns() map[string]any {
 	return map[string]any{
 		"c18-y": func(i int) { r.y(i) },
+		"c18-ro": func() *os.File { return r.ro },
 		// true for exactly one caller per stage
 		"c18-once": func(i int) bool { return i >= 0 && i < len(r.once) && r.once[i].CompareAndSwap(false, true) },
 		"c18-emit": func(fm *eval.Frame, i int) error {
@@ -767,6 +778,17 @@ func c18Check(c c18Case) error {
 		defer runtime.GOMAXPROCS(runtime.GOMAXPROCS(c.Procs))
 	}
 	run := &c18Run{c: c, cnt: make([]atomic.Int64, len(c.Stages)), once: make([]atomic.Bool, len(c.Stages))}
+	for _, st := range c.Stages {
+		if st.Kind == "wfail" && run.ro == nil {
+			ro, err := os.Open(os.DevNull)
+			if err != nil {
+				vs.Excluded("harness: cannot open " + os.DevNull)
+				return nil
+			}
+			run.ro = ro
+			defer ro.Close()
+		}
+	}
 	ev := elv.New()
 	elv.AddGoFns(ev, run.fns())
 	code := c18Code(c)
@@ -870,6 +892,9 @@ func c18BoomOK(msg string, i int, kind string) bool {
 	if kind == "peachmixed" {
 		return strings.Contains(msg, want)
 	}
+	if kind == "wfail" {
+		return strings.Contains(msg, "bad file descriptor")
+	}
 	return msg == want
 }
 
@@ -882,9 +907,9 @@ func c18Clip2(s string, n int) string {
 
 // ---- generator --------------------------------------------------------------------
 
-var c18Producers = []string{"emit", "emit", "emit", "range", "put", "natloop", "foreverv", "foreverb"}
+var c18Producers = []string{"emit", "emit", "emit", "range", "put", "natloop", "foreverv", "foreverb", "wfail"}
 var c18Filters = []string{"relay", "relay", "eachput", "eachecho", "eachboth", "all", "onlyv", "onlyb", "tolines", "take", "count", "peach", "peachforever", "peachmixed", "eachfail"}
-var c18Early = []string{"nop", "readk", "readk", "readk", "readline", "fail", "throw", "emit", "put"}
+var c18Early = []string{"nop", "readk", "readk", "readk", "readline", "fail", "throw", "emit", "put", "wfail"}
 
 func c18GenStage(t *rapid.T, kind string) c18Stage {
 	st := c18Stage{Kind: kind}
@@ -914,6 +939,8 @@ func c18GenStage(t *rapid.T, kind string) c18Stage {
 	case "throw":
 		st.K = rapid.SampledFrom([]int{0, 1, 33, 400}).Draw(t, "k")
 		st.NV = rapid.SampledFrom([]int{0, 2, 40}).Draw(t, "nv")
+	case "wfail":
+		st.K = rapid.IntRange(0, 3).Draw(t, "form")
 	}
 	switch kind {
 	case "emit", "natloop", "relay", "eachput", "eachecho", "eachboth", "peach", "eachfail", "readk", "throw":
@@ -1039,7 +1066,7 @@ func c18Class(c c18Case) (string, bool) {
 	return strings.Join(parts, "+"), info.big || early
 }
 
-const c18Rule = "pipelines of 2..6 stages: producers (harness emit with n values and m byte lines in 4 write orders, range, put, an each-loop writing both channels, unbounded while-loops), full readers (harness relay, each{put}, each{echo}, each{put;echo}, all, only-values, only-bytes, to-lines, take, count, peach, each{fail}), early-exiting readers (nop, harness read-k, read-line, fail, harness throw, a producer in mid-pipeline); payload sizes around and above the 32-slot value channel and the 64 KiB pipe; per-stage yield patterns (Gosched / 20-200us sleeps) and GOMAXPROCS in {1,2,4,16} are part of the case. Left out by construction: readers that neither drain the value channel nor exit (from-lines, external commands, read-line behind >20 values) - `range 100 | e:cat` blocks forever by design of the two-channel pipe; only-values/only-bytes directly before a reader that may stop reading while C18:only-values-stops-draining is open (replaced by a draining relay). Non-trivial = some stage writes more than a buffer (>32 values or >64 KiB) or some stage exits without reading all its input"
+const c18Rule = "pipelines of 2..6 stages: a stage whose byte write fails for real (stdout redirected to a file opened read-only: must be reported, unlike a reader that is gone); producers (harness emit with n values and m byte lines in 4 write orders, range, put, an each-loop writing both channels, unbounded while-loops), full readers (harness relay, each{put}, each{echo}, each{put;echo}, all, only-values, only-bytes, to-lines, take, count, peach, each{fail}), early-exiting readers (nop, harness read-k, read-line, fail, harness throw, a producer in mid-pipeline); payload sizes around and above the 32-slot value channel and the 64 KiB pipe; per-stage yield patterns (Gosched / 20-200us sleeps) and GOMAXPROCS in {1,2,4,16} are part of the case. Left out by construction: readers that neither drain the value channel nor exit (from-lines, external commands, read-line behind >20 values) - `range 100 | e:cat` blocks forever by design of the two-channel pipe; only-values/only-bytes directly before a reader that may stop reading while C18:only-values-stops-draining is open (replaced by a draining relay). Non-trivial = some stage writes more than a buffer (>32 values or >64 KiB) or some stage exits without reading all its input"
 
 func init() {
 	// put s0v0 s0v1 | peach {|x| while $true { put $x } } | nop: both callbacks
